@@ -256,6 +256,10 @@ def run(ctx):
         ctx.sample({"kind": "prescribed-document", "fields": [f"{f['name']}:{f['kind']}:{f['tp']}:{f['card']}" for f in c["m"]["fields"]],
                     "instance": c["inst"], "prescribed": c["doc"]})
     ctx.extra["prescribed_documents_compared"] = len(cases)
+    # compound (Elements) fields: the element NAME each value is written under is prescribed by spec/Compound.tla
+    from .. import compound_bind
+
+    compound_bind.run_phase(ctx, documents_only=True)
 
 
 def replay(ctx, doc):
